@@ -210,7 +210,10 @@ CHECKS = {
              "expiration) and their composition crash_restart for every history prefix; link theorem "
              "agree->monitor. Tie: deep copies of a copying in-memory storage after init, after EVERY "
              "event a block handled (external or its own timer) and after the stop, compared with "
-             "get_state(); second circuits started from 1..3 of these crash points after a downtime.",
+             "get_state(); second circuits started from 1..3 of these crash points after a downtime. An "
+             "additional monitor clause (outside the link theorem): a state reported by get_state() never "
+             "carries the expiration of a timer that is already over (blocks incl. an FSM whose timed "
+             "event can be vetoed and a probe whose failing handler changes its state first).",
         technique="Coq proof (storage lemmas, step semantics of the persistence bookkeeping) + "
                   "differential correspondence and monitor evaluated by vm_compute",
         design_ref="DESIGN.md section 6/C06"),
@@ -263,7 +266,8 @@ CHECKS = {
              "observed over a matrix fault site x termination cause x instant x second cause x circuit "
              "composition must be accepted. Observed on the implementation only (not theorems): no "
              "pending task or timer when run() is over, stop_data delivered last, restart and modification "
-             "refused, documented Event.shutdown() exists.",
+             "refused, asynchronous clean-up not longer than the largest stop_timeout, documented "
+             "Event.shutdown() exists.",
         technique="Coq proof (permutation/ordering invariants of the acceptor) + log acceptance and "
                   "monitor by vm_compute; leak/stop_data/restart flags observed at run time",
         level_note="Trusted: Coq kernel/vm_compute, hand-written acceptor tied by this run's correspondence; "
